@@ -91,7 +91,7 @@ func init() {
 	addMutant(Mutant{Name: "c22-leaf-replace-kept", Property: "C22", File: "gnmidiff/intent.go",
 		Old: "\t\tdelete(intent.Deletes, path)\n\t\tif err := intent.writeUpdate(path, leafVal, errorOnOverwrite); err != nil {", New: "\t\tif err := intent.writeUpdate(path, leafVal, errorOnOverwrite); err != nil {", Expect: "populateUpdateNoSchema:leaf-replace"})
 	addMutant(Mutant{Name: "c22-update-no-prefix", Property: "C22", File: "gnmidiff/setrequest.go",
-		Old: "\tfor _, upd := range req.Update {\n\t\tpath, err := fullPathStr(prefix, upd.Path)", New: "\tfor _, upd := range req.Update {\n\t\tpath, err := fullPathStr(\"\", upd.Path)", Expect: "Update:path"})
+		Old: "\tfor _, upd := range req.Update {\n\t\tpath, err := fullPathStr(prefix, upd.GetPath())", New: "\tfor _, upd := range req.Update {\n\t\tpath, err := fullPathStr(\"\", upd.GetPath())", Expect: "Update:path"})
 	addMutant(Mutant{Name: "c22-nil-leaflist", Property: "C22", File: "gnmidiff/intent.go",
 		Old: "\t\tss := make([]interface{}, len(elems))\n\t\tfor x, e := range elems {\n\t\t\tvar err error\n\t\t\tif ss[x], err = protoLeafToJSON(e); err != nil {\n\t\t\t\treturn nil, err\n\t\t\t}\n\t\t}", New: "\t\tvar ss []interface{}\n\t\tfor _, e := range elems {\n\t\t\ts, err := protoLeafToJSON(e)\n\t\t\tif err != nil {\n\t\t\t\treturn nil, err\n\t\t\t}\n\t\t\tss = append(ss, s)\n\t\t}", Expect: "TypedValue_LeaflistVal"})
 	addMutant(Mutant{Name: "c22-int-as-int64", Property: "C22", File: "gnmidiff/intent.go",
@@ -236,7 +236,7 @@ func init() {
 	addMutant(Mutant{Name: "c23-common-any", Property: "C23", File: "gnmidiff/set_to_get.go",
 		Old: "\t\tcase ok:\n\t\t\tdiff.CommonUpdates[pathA] = vA", New: "\t\tcase ok || vA == nil:\n\t\t\tdiff.CommonUpdates[pathA] = vA", Expect: "class:"})
 	addMutant(Mutant{Name: "c23-notif-prefix-ignored", Property: "C23", File: "gnmidiff/set_to_get.go",
-		Old: "\t\t\tpath, err := fullPathStr(prefix, upd.Path)", New: "\t\t\tpath, err := fullPathStr(prefix[:0], upd.Path)", Expect: "notification-leaves"})
+		Old: "\t\t\tpath, err := fullPathStr(prefix, upd.GetPath())", New: "\t\t\tpath, err := fullPathStr(prefix[:0], upd.GetPath())", Expect: "notification-leaves"})
 	// C10
 	addMutant(Mutant{Name: "c10-write-not-at-target", Property: "C10", File: "ytypes/node.go",
 		Old: "\t\t\tif !util.IsValueNil(args.val) && len(path.Elem) == to {", New: "\t\t\tif !util.IsValueNil(args.val) && len(path.Elem) <= to+1 {", Expect: "value-write"})
@@ -399,7 +399,7 @@ func init() {
 func init() {
 	// rules added after the seventh seed batch
 	addMutant(Mutant{Name: "c02-orderedlist-empty-key-as-missing", Property: "C02", File: "ytypes/node.go",
-		Old: "\t\tif pathKey, ok := path.GetElem()[0].GetKey()[schema.Key]; ok {\n\t\t\tpathKeyVals[schema.Key] = pathKey", New: "\t\tif pathKey := path.GetElem()[0].GetKey()[schema.Key]; pathKey != \"\" {\n\t\t\tpathKeyVals[schema.Key] = pathKey", Expect: "retrieveNodeOrderedList:key-lookup"})
+		Old: "\t\tif pathKey, ok := path.GetElem()[0].GetKey()[schema.Key]; ok {\n\t\t\tpathKeyVals[schema.Key] = canonicalPathKey(pathKey, keyType)", New: "\t\tif pathKey := path.GetElem()[0].GetKey()[schema.Key]; pathKey != \"\" {\n\t\t\tpathKeyVals[schema.Key] = canonicalPathKey(pathKey, keyType)", Expect: "retrieveNodeOrderedList:key-lookup"})
 	addMutant(Mutant{Name: "c02-parseint-for-unsigned", Property: "C02", File: "ytypes/util_types.go",
 		Old: "\t\tu, err := strconv.ParseUint(s, 10, int(t.Size())*8)\n\t\tif err != nil {\n\t\t\treturn reflect.ValueOf(nil), fmt.Errorf(\"unable to convert %q to %v\", s, t.Kind())\n\t\t}\n\t\t// Although Convert can panic, we know that the type is an unsigned", New: "\t\tu, err := strconv.ParseInt(s, 10, 64)\n\t\tif err != nil || u < 0 {\n\t\t\treturn reflect.ValueOf(nil), fmt.Errorf(\"unable to convert %q to %v\", s, t.Kind())\n\t\t}\n\t\t// Although Convert can panic, we know that the type is an unsigned", Expect: "StringToType:kind-switch"})
 	addMutant(Mutant{Name: "c29-relpath-by-name-search", Property: "C29", File: "ygen/directory.go",
